@@ -29,6 +29,26 @@ var (
 	repoDir  = envOr("VERIF_REPO", "/repo")
 )
 
+// workBase is where journals, worker output and jails live: tmpfs when available (filesystem
+// workloads are ~10x faster there than on the image's ext4 with discard), else /verif/work.
+func workBase() string {
+	if v := os.Getenv("VERIF_WORK"); v != "" {
+		return v
+	}
+	const shm = "/dev/shm"
+	if st, err := os.Stat(shm); err == nil && st.IsDir() {
+		p := filepath.Join(shm, "gtverif-work")
+		if os.MkdirAll(p, 0o755) == nil {
+			if f, err := os.CreateTemp(p, "probe"); err == nil {
+				f.Close()
+				os.Remove(f.Name())
+				return p
+			}
+		}
+	}
+	return filepath.Join(verifDir, "work")
+}
+
 func envOr(k, d string) string {
 	if v := os.Getenv(k); v != "" {
 		return v
@@ -246,7 +266,7 @@ func runCheck(id, tier string) int {
 		fmt.Println("ERROR build:", err)
 		return 2
 	}
-	work := filepath.Join(verifDir, "work", fmt.Sprintf("%s-%s-%d", id, tier, os.Getpid()))
+	work := filepath.Join(workBase(), fmt.Sprintf("%s-%s-%d", id, tier, os.Getpid()))
 	os.RemoveAll(work)
 	os.MkdirAll(work, 0o755)
 	defer os.RemoveAll(work)
@@ -386,6 +406,17 @@ func runCheck(id, tier string) int {
 		os.WriteFile(path, b, 0o644)
 		vioLines = append(vioLines, fmt.Sprintf("VIOLATION property=%s replay=%s", id, path))
 		fmt.Printf("  clause=%s sig=%q entry=%q tags=%v\n", v.Clause, v.Sig, v.Entry, v.Tags)
+	}
+	if unlisted > 0 {
+		var keys []string
+		for k := range printed {
+			keys = append(keys, k)
+		}
+		sort.Strings(keys)
+		fmt.Println("unlisted violations by clause|sig|entry:")
+		for _, k := range keys {
+			fmt.Printf("  %6d  %s\n", printed[k], k)
+		}
 	}
 	var kfIDs []string
 	for k := range kfHit {
@@ -787,7 +818,7 @@ func runReplay(path string) int {
 		fmt.Println("ERROR build:", err)
 		return 2
 	}
-	work := filepath.Join(verifDir, "work", fmt.Sprintf("replay-%d", os.Getpid()))
+	work := filepath.Join(workBase(), fmt.Sprintf("replay-%d", os.Getpid()))
 	os.MkdirAll(work, 0o755)
 	defer os.RemoveAll(work)
 	outPath := filepath.Join(work, "out")
